@@ -617,7 +617,7 @@ pub fn run_case(line: &str, slow_ms: u128, emit: &mut dyn FnMut(String)) {
     let mut hash: u64 = 14695981039346656037;
     let mut tok_start = std::time::Instant::now();
     let mut tok_lines = 0usize;
-    let modelled = matches!(emu, Emu::Ansi(_) | Emu::Avatar | Emu::PCBoard | Emu::CtrlA | Emu::Renegade);
+    let modelled = true;
     let mut items: Vec<String> = Vec::new();
     let mut mh: u64 = 14695981039346656037;
     let mut checkpoints: Vec<u64> = Vec::new();
@@ -716,6 +716,7 @@ fn model_op(emu: Emu, w: i32, h: i32, items: &[String]) -> String {
     let its = if items.is_empty() { "-".to_string() } else { items.join(",") };
     match emu {
         Emu::Ansi(m) => format!("term run {} 1 {} {} {}", m, w, h, its),
-        _ => format!("term runw {} {} {} {}", emu.name(), w, h, its),
+        Emu::Avatar | Emu::PCBoard | Emu::CtrlA | Emu::Renegade => format!("term runw {} {} {} {}", emu.name(), w, h, its),
+        _ => format!("term runo {} {} {} {}", emu.name(), w, h, its),
     }
 }
